@@ -139,6 +139,16 @@ def body(ctx):
     ctx.extra['process_paths'] = npaths
     VAL.run()
     handle_side(ctx, prog, viol)
+    # the closed id can be used again: the channel table over every short history (the bounded model check of C10 at a smaller depth)
+    import c10
+    reports = []
+    try:
+        c10.run_bmc(ctx, prog, ctx.q(3, 4), 'dev', reports)
+        c10.run_inductive(ctx, prog, ctx.q(3, 5), 'dev', reports)
+    except (Unsupported, c10.Inconclusive) as e:
+        ctx.inconclusive.append(f"channel table BMC: {type(e).__name__}: {e}")
+    for (desc, maxv, prefix, ops, what) in reports:
+        ctx.report(None, what, desc, c10.rust_test(maxv, prefix, ops, desc.get('n_tail', 1)), inject_into='src/io_loop/mod.rs', role_from_output=True)
     ctx.twin('c09.twin', [], z3.BoolVal(npaths == 0))
     from ioreplay import prelude
     fams = {}
